@@ -161,7 +161,11 @@ func (r *rig) stop() {
 	synctest.Wait()
 }
 
+// every metric the harness itself handed to the monitor
+var harnessMetrics = map[*api.Metric]bool{}
+
 func (r *rig) logMetric(m *api.Metric) {
+	harnessMetrics[m] = true
 	if r.mon != nil {
 		r.mon.LogMetric(r.ctx, m)
 	} else {
@@ -255,7 +259,10 @@ func (r *rig) installMetrics(n int, st []int, nonnum string) {
 	if r.mon != nil {
 		for i := 0; i < maxPeers; i++ {
 			got := r.mon.Store.PeerLatest(metricName, r.pids[i])
-			if got != injected[i] {
+			if got != injected[i] && got != nil && !harnessMetrics[got] {
+				// somebody else wrote the metric: the harness lost control.
+				// (a store that did not keep the injected metric as the
+				// latest one is the code's problem, judged by the oracle)
 				r.t.Fatalf("harness: metric of peer %d is not the injected one (%v vs %v)", i, got, injected[i])
 			}
 		}
